@@ -1445,15 +1445,19 @@ func (l *ChainedSeqContext3) apply(ctx *Context, a, b int) int {
 
 	glyphsNeeded = len(l.Lookahead)
 	for _, cov := range l.Lookahead {
+		// Skipping ignored glyphs behind the last input glyph stopped at
+		// the end of the window [a, b).  The lookahead sequence is matched
+		// beyond the window, so the remaining ignored glyphs in front of
+		// the next lookahead glyph are skipped here.
+		for p < len(seq) && p+glyphsNeeded <= len(seq) && !keep.Keep(seq[p].GID) {
+			p++
+		}
 		if p+glyphsNeeded-1 >= len(seq) || !cov[seq[p].GID] {
 			ctx.scratch = matchPos // return the scratch space
 			return -1
 		}
 		glyphsNeeded--
 		p++
-		for p < len(seq) && p+glyphsNeeded <= len(seq) && !keep.Keep(seq[p].GID) {
-			p++
-		}
 	}
 
 	ctx.scratch = nil // claim the scratch space as our own
